@@ -1,5 +1,7 @@
 """C05 - sentence parsers are total and leave a consistent sentence."""
+import json
 import vlib
+from props import _lifecycle as L
 
 LEVEL = "model_checking"
 
@@ -43,6 +45,19 @@ def run(ctx):
                 "and 3 updates (updates applied to a tagged sentence); non-trivial = string accepted by the "
                 "tokenized or partial reader")
     string_cases(ctx, binp, 4 if ctx.quick else 5)
+    # histories: every call sequence up to the depth over the operation pool; C05 judges the state after every
+    # update / constructor / reset_tags call (the prediction-related steps are judged by C08)
+    L.mutant(ctx)
+    plans = [(3, 1)] if ctx.quick else [(3, 1), (4, 2)]
+    for depth, pool in plans:
+        cases, preds = L.generate(ctx, depth, pool)
+        L.replay(ctx, binp, cases, preds, lambda op, probe: op["op"].startswith(("up_", "new_", "reset")),
+                 f"C05-hist-d{depth}p{pool}", 8)
+        for c in cases[::max(1, len(cases) // 3)][:2]:
+            ctx.sample({"history": [L.opkey(o) for o in c["ops"]]})
+        for c in cases:
+            if any(o["op"] in ("up_tok", "up_part") for o in c["ops"][:-8]):
+                ctx.nontriv(("hist", json.dumps(c["ops"][:-8])))
     ctx.exhaustive = True
 
 
